@@ -36,6 +36,7 @@ def extract_attrs(header):
         "number_of_overlap_lines_with_adjacent_bursts",
     }
     transformers = {
+        "interleaving_id": lambda v: v if v else [],
         # a blank integer field is decoded as -1 (a blank float as nan)
         "maximum_data_range_of_pixel": lambda v: [0, v] if v != -1 and not math.isnan(v) else [],
         "number_of_burst_data": lambda v: v if v != -1 else [],
